@@ -30,6 +30,10 @@ type scenario struct {
 	Seq [][]txn.Prog
 	// MaxTime is the transactions' commit budget and lock TTL (0 = default 15 min).
 	MaxTime time.Duration
+	// StallThread0 (C15): additionally explore, for every scheduling point k of thread 0, the execution in
+	// which thread 0 stalls forever at k while the others run on.
+	StallThread0 bool
+	stallAt      int
 	// Env adds an environment thread performing these cache/clock events, one per step.
 	Env []string
 	// Props this scenario serves.
@@ -44,6 +48,14 @@ type execEnv struct {
 	recs  []*txn.Record
 	final txn.Dump
 	cold  txn.Dump
+	followup *txn.Record
+}
+
+func stallMap(sc *scenario) map[int]int {
+	if sc.stallAt > 0 {
+		return map[int]int{0: sc.stallAt}
+	}
+	return nil
 }
 
 func mkSeq(sc *scenario) *scenario {
@@ -81,6 +93,7 @@ func mkScenario(sc *scenario) *sched.Scenario {
 		Classes:    []string{"l2", "dio", "file"},
 		Epoch:      epoch,
 		MaxVirtual: 2 * time.Hour,
+		StallAt:    stallMap(sc),
 		Setup: func(x *sched.Execution) []sched.ThreadSpec {
 			sopenv.Restore(2)
 			sopenv.MaxTime = sc.MaxTime
@@ -95,6 +108,7 @@ func mkScenario(sc *scenario) *sched.Scenario {
 					idx += len(seq)
 					specs = append(specs, sched.ThreadSpec{Name: seq[0].Name, Fn: func(t *sched.T) {
 						ctx := context.WithValue(t.Ctx(), txn.StampKey{}, func() int { return t.X().TraceLen() })
+						ctx = context.WithValue(ctx, txn.ClockKey{}, func() int64 { return t.Now().UnixNano() })
 						for k, p := range seq {
 							env.recs[base+k] = txn.Run(ctx, p, nil)
 						}
@@ -105,6 +119,7 @@ func mkScenario(sc *scenario) *sched.Scenario {
 					i, p := i, p
 					specs = append(specs, sched.ThreadSpec{Name: p.Name, Fn: func(t *sched.T) {
 						ctx := context.WithValue(t.Ctx(), txn.StampKey{}, func() int { return t.X().TraceLen() })
+						ctx = context.WithValue(ctx, txn.ClockKey{}, func() int64 { return t.Now().UnixNano() })
 						env.recs[i] = txn.Run(ctx, p, nil)
 					}})
 				}
@@ -131,6 +146,25 @@ func mkScenario(sc *scenario) *sched.Scenario {
 		},
 		Teardown: func(x *sched.Execution) {
 			env := x.Env.(*execEnv)
+			if sc.StallThread0 {
+				// C15: once the budget (= lock TTL) of a stalled or failed transaction has elapsed, a later
+				// transaction on the same keys must be able to commit.
+				mt := sc.MaxTime
+				if mt == 0 {
+					mt = 15 * time.Minute
+				}
+				x.Advance(mt + time.Second)
+				var ops []txn.Op
+				for _, p := range sc.Progs {
+					for _, o := range p.Ops {
+						if o.Kind == "rmw" || o.Kind == "update" || o.Kind == "add" || o.Kind == "remove" {
+							ops = append(ops, txn.Op{Kind: "upsert", Store: o.Store, K: o.K, V: "followup"})
+						}
+					}
+				}
+				env.followup = txn.Run(sopenv.Bg, txn.Prog{Name: "followup", Mode: sop.ForWriting, Ops: ops, End: "commit"}, nil)
+				return
+			}
 			env.final = txn.ReadAll(sopenv.Bg, names(sc))
 			sopenv.ResetCaches()
 			env.cold = txn.ReadAll(sopenv.Bg, names(sc))
@@ -305,6 +339,28 @@ func worker(run *ev.Run, prop string, sc *scenario, shard, shards int, thorough 
 			break // smallest-bound counterexample found; report it
 		}
 	}
+	if sc.StallThread0 && run.NewViolationCount() == 0 {
+		// every scheduling point of thread 0 as a stall point; the other threads under every schedule with <= 1 deviation
+		base := sched.Run(ssc, nil)
+		n0 := 0
+		for _, tr := range base.Trace {
+			if strings.HasPrefix(tr, "0:") && !strings.HasPrefix(tr, "0:sleep") && !strings.HasPrefix(tr, "0:note") {
+				n0++
+			}
+		}
+		for k := 1 + shard; k <= n0; k += shards {
+			c := *sc
+			c.stallAt = k
+			e := &sched.Explorer{Sc: mkScenario(&c), Bound: 0, Shards: 1, Deadline: deadline}
+			e.Check = func(x *sched.Execution, schedule []int) {
+				outcomes[outcomeOf(x)]++
+				checkExecution(run, prop, &c, x, schedule)
+			}
+			e.Explore()
+			allPasses += e.Executions
+			run.Add("stall_points_explored", 1)
+		}
+	}
 	run.Set("executions", allPasses)
 	run.Set("schedules_at_final_bound", total)
 	run.Set("schedules_with_context_switch", switched)
@@ -418,6 +474,11 @@ func checkExecution(run *ev.Run, prop string, sc *scenario, x *sched.Execution, 
 	}
 	if x.Livelock {
 		viol("livelock", "virtual-time / step horizon exceeded")
+		return
+	}
+	_ = 0
+	if prop == "C15" {
+		checkC15(viol, sc, x, env)
 		return
 	}
 	nm := names(sc)
@@ -997,5 +1058,29 @@ func checkC20(viol func(kind, detail string), sc *scenario, env *execEnv, initia
 				viol("stale-read", fmt.Sprintf("reader %s began at logical time %d, after %d commit(s) had returned; %s returned found=%v val=%q count=%d scan=%v; acceptable (latest committed state or later): %v", r.Prog.Name, r.BeginAt, must, res.Op, res.Found, res.Val, res.Count, res.Scan, accept))
 			}
 		}
+	}
+}
+
+// checkC15: every Commit of a live thread returns within maxTime + epsilon on the virtual clock, whatever the
+// others do (including a lock holder that stalls forever), and afterwards a later transaction can commit.
+func checkC15(viol func(kind, detail string), sc *scenario, x *sched.Execution, env *execEnv) {
+	mt := sc.MaxTime
+	if mt == 0 {
+		mt = 15 * time.Minute
+	}
+	const eps = time.Second
+	for i, r := range env.recs {
+		if r == nil || x.Threads[i].Stalled || r.CommitStart == 0 {
+			continue
+		}
+		d := time.Duration(r.CommitEnd - r.CommitStart)
+		if d > mt+eps {
+			viol("commit-overran-budget", fmt.Sprintf("%s: Commit took %v of virtual time, budget maxTime=%v (+%v); result: committed=%v err=%q; stalled thread 0 at point %d", r.Prog.Name, d, mt, eps, r.Committed, r.EndErr, sc.stallAt))
+		}
+	}
+	// "A transaction that gives up releases its locks": judged only when every transaction ended by itself
+	// (a holder that stalls forever is a crashed transaction; what it leaves behind is C09's subject).
+	if f := env.followup; f != nil && !f.Committed && sc.stallAt == 0 {
+		viol("followup-blocked-after-ttl", fmt.Sprintf("after maxTime+1s a new transaction on the same keys failed: %s %s (stalled thread 0 at point %d)", f.EndErr, f.OpenErr, sc.stallAt))
 	}
 }
